@@ -21,10 +21,31 @@ def _tol(be):
     return 1e-9 if be == 'np' else 1e-5
 
 
+def _state_from(be, case):
+    """the state under test, built from the reference tableau directly or - same density matrix - by stabilizer_state() from a recombined,
+    reordered generating set of its stabilizer group (the library then chooses its own destabilizers)."""
+    S, c = C.dec_state(be, case['state'])
+    src = case.get('source')
+    N = case['N']
+    r = case['state']['r']
+    if src is None or r == N:
+        return S
+    Ls, Ks, _ = C.state_rows(case['state'])
+    gl, gk = [Ls[a].copy() for a in range(r, N)], [int(Ks[a]) for a in range(r, N)]
+    n = len(gk)
+    for t in range(3 * n):                      # unimodular recombination: g_i <- g_i g_j
+        i, j = (src[t % len(src)] + t) % n, (src[(t + 1) % len(src)] + 2 * t + 1) % n
+        if i != j:
+            gl[i], kk = ref.pmul(gl[i], gk[i], gl[j], gk[j]); gk[i] = int(kk)
+    order = sorted(range(n), key=lambda i: (src[i % len(src)] * 7 + i * 3) % (n + 1))
+    Bk = B.backend(be)
+    return Bk.mods()['s'].stabilizer_state(Bk.plist(np.array([gl[i] for i in order]), np.array([gk[i] for i in order])))
+
+
 def f_expect_list(case):
     be, N = case['be'], case['N']
     Bk = B.backend(be)
-    S, c = C.dec_state(be, case['state'])
+    S = _state_from(be, case)
     rho = C.dense_state(case['state'])
     L, K = ref.parse_list(case['obs'], N)
     if len(K) == 0 and be == 'torch':      # (the empty list is a pyclifford case)
@@ -50,7 +71,7 @@ def f_expect_list(case):
 
 def st_expect_list(be, hiN):
     return st.integers(1, hiN).flatmap(lambda N: st.fixed_dictionaries(
-        {'be': st.just(be), 'N': st.just(N), 'state': gen.st_state(N),
+        {'be': st.just(be), 'N': st.just(N), 'state': gen.st_state(N), 'source': st.none() | st.lists(st.integers(0, 7), min_size=2, max_size=6),
          'obs': st.one_of(gen.st_pauli_list(N, 0, 6, phases=(0, 2)), gen.st_commuting_obs(N, 1, 5))}))
 
 
@@ -169,7 +190,7 @@ def st_overlap(be, hiN):
 def f_get_prob(case):
     be, N = case['be'], case['N']
     Bk = B.backend(be)
-    S, _ = C.dec_state(be, case['state'])
+    S = _state_from(be, case)
     rho = C.dense_state(case['state'])
     r = case['state']['r']
     total = 0.0
@@ -203,7 +224,7 @@ def f_get_prob(case):
 def st_get_prob(be, hiN):
     return st.integers(1, hiN).flatmap(lambda N: st.fixed_dictionaries(
         {'be': st.just(be), 'N': st.just(N),
-         'salt': st.integers(0, 3),
+         'salt': st.integers(0, 3), 'source': st.none() | st.lists(st.integers(0, 7), min_size=2, max_size=6),
          'state': st.fixed_dictionaries({'rows': gen.st_clifford_rows(N, max_word=3 * N), 'r': st.sampled_from([0, 0, 0, 0, 0, 0, 0, 1])})}))
 
 
